@@ -14,6 +14,7 @@ import (
 	"strings"
 	"sync"
 	"sync/atomic"
+	"syscall"
 	"time"
 
 	"github.com/jimlambrt/gldap"
@@ -83,34 +84,39 @@ type sClient struct {
 	mu          sync.Mutex
 	noRead      bool
 	closedLocal bool
+	tap         *tapConn
+	kind        string
 	readGate    chan struct{}
 }
 
 type runner struct {
-	scen            *sScenario
-	out             *hx.Out
-	mu              sync.Mutex
-	log             []tEvent
-	cond            *sync.Cond
-	plans           map[int64]*framePlan // by message id
-	clients         map[string]*sClient
-	byConn          map[int]string // ConnectionID -> tag (learned from handlers)
-	srv             *gldap.Server
-	addr            string
-	runRet          chan error
-	started         map[string]map[int]bool // hstart seen
-	relsd           map[string]map[int]bool // released by the scenario
-	inflight        int64
-	ocStart, ocDone int64
-	ocHold          bool
-	ocRel           chan struct{}
-	stopRet         map[string]chan struct{}
-	tlsSrv          *tls.Config
-	tlsCli          *tls.Config
-	seed            int64
-	ended           bool
-	gates           map[string]int
-	gateHook        func(point string, ids ...int)
+	scen                  *sScenario
+	out                   *hx.Out
+	mu                    sync.Mutex
+	log                   []tEvent
+	cond                  *sync.Cond
+	plans                 map[int64]*framePlan // by message id
+	clients               map[string]*sClient
+	byConn                map[int]string // ConnectionID -> tag (learned from handlers)
+	srv                   *gldap.Server
+	addr                  string
+	runAddr               string
+	runRet                chan error
+	started               map[string]map[int]bool // hstart seen
+	relsd                 map[string]map[int]bool // released by the scenario
+	inflight              int64
+	ocStart, ocDone       int64
+	ocHold                bool
+	ocRel                 chan struct{}
+	stopRet               map[string]chan struct{}
+	tlsSrv                *tls.Config
+	tlsCli                *tls.Config
+	clientCert, wrongCert tls.Certificate
+	seed                  int64
+	ended                 bool
+	gates                 map[string]int
+	gateHook              func(point string, ids ...int)
+	extraConns            int
 }
 
 func (r *runner) emit(e tEvent) {
@@ -172,8 +178,8 @@ func (r *runner) expect(exp []sEvent) {
 			r.mu.Lock()
 			cl := r.clients[e.C]
 			r.mu.Unlock()
-			if cl == nil || cl.closedLocal {
-				continue
+			if cl == nil || cl.closedLocal || cl.isNoRead() {
+				continue // a client that closed or stopped reading does not see the server's close
 			}
 		}
 		if ev == "onclose_out" || ev == "eof" || ev == "ready" || ev == "run_ret" || ev == "stop_ret" {
@@ -225,7 +231,7 @@ func (r *runner) waitFor(exp []sEvent) {
 			r.mu.Lock()
 			cl := r.clients[c]
 			r.mu.Unlock()
-			if cl == nil || cl.closedLocal {
+			if cl == nil || cl.closedLocal || cl.isNoRead() {
 				continue
 			}
 		}
@@ -275,8 +281,9 @@ func (r *runner) handler(w *gldap.ResponseWriter, req *gldap.Request) {
 	p := r.plans[id]
 	if p == nil && !typed {
 		// extended operation (StartTLS in these scenarios): matched by connection + request ordinal
+		tag, _ := r.tagOf(req.ConnectionID())
 		for _, q := range r.plans {
-			if q.kind == "starttls" && r.byConnTag(req.ConnectionID()) == q.c && q.i == req.ID {
+			if q.kind == "starttls" && tag == q.c && q.i == req.ID {
 				p = q
 			}
 		}
@@ -309,6 +316,21 @@ func (r *runner) handler(w *gldap.ResponseWriter, req *gldap.Request) {
 		defer atomic.AddInt64(&r.inflight, 1)
 		panic(fmt.Sprintf("deliberate handler panic %s/%d", c, i))
 	}
+	if p != nil && p.kind == "starttls" && r.scen.Cfg["tls"] == "starttls" {
+		// a real upgrade: reply, then handshake on the raw connection (Request.StartTLS)
+		er := req.NewExtendedResponse(gldap.WithResponseCode(gldap.ResultSuccess))
+		er.SetResponseName(gldap.ExtendedOperationStartTLS)
+		_ = w.Write(er)
+		if r.scen.Cfg["tls_delay_after"] == "1" {
+			time.Sleep(30 * time.Millisecond)
+		}
+		v := "tls-ok"
+		if err := req.StartTLS(r.tlsSrv); err != nil {
+			v = "tls-err"
+		}
+		r.emit(tEvent{Ev: "hend", C: c, Conn: req.ConnectionID(), Req: req.ID, I: i, K: kind, Val: v})
+		return
+	}
 	var resp gldap.Response
 	r.mu.Lock()
 	notReading := p != nil && r.clients[p.c] != nil && r.clients[p.c].isNoRead()
@@ -337,9 +359,9 @@ func (r *runner) tagOf(id int) (string, string) {
 	if t, ok := r.byConn[id]; ok {
 		return t, ""
 	}
-	off := 0
+	off := r.extraConns
 	if r.scen.Cfg["ready_dial"] == "1" {
-		off = 1
+		off++
 	}
 	for _, cl := range r.clients {
 		if cl.idx+off == id {
@@ -413,8 +435,9 @@ func (r *runner) frameBytes(cl *sClient, e sEvent) []byte {
 		}
 		return lx.Envelope(id, lx.BindReq(2, "cn=x", "p"), nil).Encode() // bind, not LDAPv3
 	case "partial":
-		b := opFrame(id, cl.tag, e.I, r.seed).Encode()
-		return b[:len(b)/2]
+		// the beginning of a frame: an envelope announcing 3 content bytes of which 2 are sent (any further byte completes it to an envelope with a single child).  Whatever is
+		// sent later completes it to something that does not parse.
+		return []byte{0x30, 0x03, 0x02, 0x01}
 	}
 	return nil
 }
@@ -451,6 +474,9 @@ func (r *runner) clientReader(cl *sClient) {
 			}
 			r.mu.Lock()
 			held := r.heldOn(cl.tag)
+			if cl.closedLocal {
+				kind = "local-close"
+			}
 			r.mu.Unlock()
 			if kind != "local-close" {
 				r.emit(tEvent{Ev: "eof", C: cl.tag, Val: kind, Held: held})
@@ -469,6 +495,20 @@ func (r *runner) clientReader(cl *sClient) {
 			ev = "notice"
 		}
 		r.emit(tEvent{Ev: ev, C: cl.tag, I: i, N: m.Tag, M: int(m.Code), Val: m.Diag, Conn: ci})
+		r.mu.Lock()
+		pl := r.plans[m.ID]
+		r.mu.Unlock()
+		if pl != nil && pl.kind == "starttls" && r.scen.Cfg["tls"] == "starttls" && m.Code == 0 && cl.kind != "silent" {
+			// a conforming client: ClientHello the moment the response has arrived
+			if cl.tap != nil {
+				cl.tap.mark()
+			}
+			v := "ok"
+			if err := cl.conn.Upgrade(r.tlsCli, 5*time.Second); err != nil {
+				v = "err: " + err.Error()
+			}
+			r.emit(tEvent{Ev: "tlsup", C: cl.tag, I: i, Val: v})
+		}
 	}
 }
 
@@ -480,7 +520,7 @@ func (r *runner) planFrame(e sEvent) []byte {
 	if cl == nil {
 		return nil
 	}
-	p := &framePlan{c: e.C, i: e.I, kind: e.K, hold: e.Hold, rel: make(chan struct{})}
+	p := &framePlan{c: e.C, i: e.I, kind: e.K, hold: e.Hold, panic: e.S == "panic", rel: make(chan struct{})}
 	r.mu.Lock()
 	r.plans[msgID(cl.idx, e.I)] = p
 	r.mu.Unlock()
@@ -502,16 +542,20 @@ func (r *runner) step(e sEvent) {
 		}
 		r.emit(tEvent{Ev: "run_call"})
 		go func() {
-			err := r.srv.Run(r.addr, ropts...)
+			err := r.srv.Run(r.runAddr, ropts...)
 			v := "nil"
 			if err != nil {
 				v = "error"
 			}
-			r.emit(tEvent{Ev: "run_ret", Val: v})
+			xs := ""
+			if r.scen.Cfg["expect_run_error"] == "1" {
+				xs = "expect-error"
+			}
+			r.emit(tEvent{Ev: "run_ret", Val: v, S: xs})
 			r.runRet <- err
 		}()
 		go func() { // Ready poller: dial on the first true
-			for k := 0; k < 200000; k++ {
+			for k := 0; k < 100000; k++ {
 				if r.srv.Ready() {
 					v := ""
 					if r.scen.Cfg["ready_dial"] == "1" {
@@ -530,30 +574,64 @@ func (r *runner) step(e sEvent) {
 			}
 		}()
 	case "dial":
+		r.mu.Lock()
 		idx := len(r.clients) + 1
+		// registered before dialling: the server may already close (and report) the connection while we dial
+		pre := &sClient{tag: e.C, idx: idx, done: make(chan struct{}), readGate: make(chan struct{})}
+		r.clients[e.C] = pre
+		r.mu.Unlock()
 		var conn *lx.Conn
 		var err error
-		if r.tlsCli != nil && r.scen.Cfg["tls"] != "starttls" {
-			conn, err = lx.DialTLS(r.addr, r.tlsCli, 3*time.Second)
-		} else {
+		var tap *tapConn
+		kind := e.K
+		if kind == "" {
+			kind = "valid"
+		}
+		mode := r.scen.Cfg["tls"]
+		switch {
+		case (mode == "tls" || mode == "mtls") && (kind == "valid" || kind == "nocert" || kind == "wrongca"):
+			cfg := r.tlsCli.Clone()
+			switch {
+			case kind == "wrongca":
+				cfg.Certificates = []tls.Certificate{r.wrongCert}
+			case kind == "valid" && mode == "mtls":
+				cfg.Certificates = []tls.Certificate{r.clientCert}
+			}
+			conn, err = lx.DialTLS(r.addr, cfg, 3*time.Second)
+		default:
+			// plain TCP: no TLS configured, StartTLS later, or a client that never speaks TLS (silent / plaintext / garbage)
 			conn, err = lx.Dial(r.addr, 3*time.Second)
+			if err == nil && mode == "starttls" {
+				tap = &tapConn{Conn: conn.C, onPlain: func(n int) { r.emit(tEvent{Ev: "plain_after_upgrade", C: e.C, N: n}) }}
+				conn.C = tap
+				conn.R = bufio.NewReader(tap)
+			}
+			if err == nil && kind == "garbage" {
+				_, _ = conn.C.Write([]byte("GET / HTTP/1.0\r\n\r\n this is not a TLS handshake \x00\xff"))
+			}
 		}
 		if err != nil {
-			r.emit(tEvent{Ev: "dial", C: e.C, Val: "failed"})
+			r.mu.Lock()
+			pre.closedLocal = true
+			r.mu.Unlock()
+			r.emit(tEvent{Ev: "dial", C: e.C, Val: "failed", K: kind})
 			return
 		}
-		cl := &sClient{tag: e.C, idx: idx, conn: conn, raw: conn.C, done: make(chan struct{}), readGate: make(chan struct{})}
+		cl := pre
 		r.mu.Lock()
-		r.clients[e.C] = cl
+		cl.conn, cl.raw, cl.tap, cl.kind = conn, conn.C, tap, kind
 		r.mu.Unlock()
-		r.emit(tEvent{Ev: "dial", C: e.C, Val: "ok", N: idx})
+		r.emit(tEvent{Ev: "dial", C: e.C, Val: "ok", N: idx, K: kind})
 		go r.clientReader(cl)
-		r.waitGate("run.registered", idx)
+		r.mu.Lock()
+		n := idx + r.extraConns
+		r.mu.Unlock()
+		r.waitGate("run.registered", n)
 	case "send", "sendpartial":
 		r.mu.Lock()
 		cl := r.clients[e.C]
 		r.mu.Unlock()
-		if cl == nil {
+		if cl == nil || cl.conn == nil {
 			return
 		}
 		_ = cl.conn.SendRaw(r.planFrame(e))
@@ -591,6 +669,33 @@ func (r *runner) step(e sEvent) {
 			p.panic = true
 			p.release()
 		}
+	case "emfile":
+		// descriptor exhaustion at accept time: leave room for exactly one more descriptor (the client's
+		// socket), so that the server's accept fails with EMFILE; then lift the limit again
+		var lim syscall.Rlimit
+		if err := syscall.Getrlimit(syscall.RLIMIT_NOFILE, &lim); err != nil {
+			r.emit(tEvent{Ev: "emfile", Val: "getrlimit failed"})
+			return
+		}
+		old := lim
+		lim.Cur = uint64(countFDs() + 1)
+		_ = syscall.Setrlimit(syscall.RLIMIT_NOFILE, &lim)
+		c, err := net.DialTimeout("tcp", r.addr, 2*time.Second)
+		time.Sleep(40 * time.Millisecond) // the accept loop runs into the limit (and backs off) meanwhile
+		_ = syscall.Setrlimit(syscall.RLIMIT_NOFILE, &old)
+		v := "dialed"
+		if err != nil {
+			v = "dial failed: " + err.Error()
+		} else {
+			defer c.Close()
+		}
+		r.emit(tEvent{Ev: "emfile", Val: v})
+		// the probe connection is accepted once descriptors are available again
+		r.mu.Lock()
+		r.extraConns++
+		n := len(r.clients) + r.extraConns
+		r.mu.Unlock()
+		r.waitGate("run.registered", n)
 	case "stopreading":
 		r.mu.Lock()
 		cl := r.clients[e.C]
@@ -607,11 +712,18 @@ func (r *runner) step(e sEvent) {
 		cl := r.clients[e.C]
 		r.mu.Unlock()
 		if cl != nil {
-			r.emit(tEvent{Ev: "close", C: e.C, Held: func() []int { r.mu.Lock(); defer r.mu.Unlock(); return r.heldOn(e.C) }()})
+			if r.scen.Cfg["reset"] == "1" {
+				if tc, ok := cl.raw.(*net.TCPConn); ok {
+					_ = tc.SetLinger(0) // the client goes away with a TCP reset
+				}
+			}
+			r.emit(tEvent{Ev: "close", C: e.C, Val: r.scen.Cfg["reset"], Held: func() []int { r.mu.Lock(); defer r.mu.Unlock(); return r.heldOn(e.C) }()})
 			r.mu.Lock()
 			cl.closedLocal = true
 			r.mu.Unlock()
-			cl.conn.Close()
+			if cl.conn != nil {
+				cl.conn.Close()
+			}
 		}
 	case "reset":
 		r.mu.Lock()
@@ -625,7 +737,9 @@ func (r *runner) step(e sEvent) {
 			r.mu.Lock()
 			cl.closedLocal = true
 			r.mu.Unlock()
-			cl.conn.Close()
+			if cl.conn != nil {
+				cl.conn.Close()
+			}
 		}
 	case "stop":
 		ch := make(chan struct{})
@@ -647,6 +761,12 @@ func (r *runner) onClose(id int) {
 	r.mu.Lock()
 	c, how := r.tagOf(id)
 	r.mu.Unlock()
+	if r.scen.Cfg["ready_dial"] == "1" && id == 1 {
+		// the Ready poller's own probe connection
+		atomic.AddInt64(&r.ocDone, 1)
+		r.emit(tEvent{Ev: "onclose_probe", Conn: id})
+		return
+	}
 	r.emit(tEvent{Ev: "onclose_in", C: c, Conn: id, Val: how})
 	if r.ocHold {
 		<-r.ocRel
@@ -661,8 +781,12 @@ func runScenario(sc *sScenario, out *hx.Out, seed int64, tlsSrv, tlsCli *tls.Con
 		runRet: make(chan error, 1), started: map[string]map[int]bool{}, relsd: map[string]map[int]bool{}, ocRel: make(chan struct{}),
 		stopRet: map[string]chan struct{}{}, seed: seed, gates: map[string]int{}}
 	r.cond = sync.NewCond(&r.mu)
-	if sc.Cfg["tls"] == "tls" || sc.Cfg["tls"] == "starttls" {
-		r.tlsSrv, r.tlsCli = tlsSrv, tlsCli
+	if m := sc.Cfg["tls"]; m == "tls" || m == "starttls" || m == "mtls" {
+		tm := getTLSMaterial()
+		r.tlsSrv, r.tlsCli, r.clientCert, r.wrongCert = tm.server, tm.client, tm.clientCert, tm.wrongCert
+		if m == "mtls" {
+			r.tlsSrv = tm.serverMTLS
+		}
 	}
 	r.ocHold = sc.Cfg["onclose_hold"] == "1"
 	mux, _ := gldap.NewMux()
@@ -682,6 +806,15 @@ func runScenario(sc *sScenario, out *hx.Out, seed int64, tlsSrv, tlsCli *tls.Con
 			}
 			r.mu.Unlock()
 			r.emit(tEvent{Ev: "hunbind", C: c, Conn: req.ConnectionID(), Req: req.ID, I: i, K: "unbind"})
+			r.mu.Lock()
+			var up *framePlan
+			if m, err := req.GetUnbindMessage(); err == nil {
+				up = r.plans[m.GetID()]
+			}
+			r.mu.Unlock()
+			if up != nil && up.panic {
+				panic("deliberate unbind handler panic")
+			}
 		})
 	}
 	sopts := []gldap.Option{gldap.WithLogger(hx.NullLogger()), gldap.WithOnClose(r.onClose)}
@@ -694,7 +827,37 @@ func runScenario(sc *sScenario, out *hx.Out, seed int64, tlsSrv, tlsCli *tls.Con
 	}
 	_ = srv.Router(mux)
 	r.srv = srv
-	r.addr = fmt.Sprintf("127.0.0.1:%d", hx.FreePort())
+	port := hx.FreePort()
+	r.addr = fmt.Sprintf("127.0.0.1:%d", port)
+	r.runAddr = r.addr
+	switch sc.Cfg["addr"] {
+	case "ipv6":
+		r.addr, r.runAddr = fmt.Sprintf("[::1]:%d", port), fmt.Sprintf("[::1]:%d", port)
+	case "ipv6-bare":
+		r.addr, r.runAddr = fmt.Sprintf("[::1]:%d", port), fmt.Sprintf("::1:%d", port)
+	case "host":
+		r.runAddr = fmt.Sprintf("localhost:%d", port)
+	case "port-only":
+		r.runAddr = fmt.Sprintf(":%d", port)
+	case "in-use":
+		if l, err := net.Listen("tcp", r.addr); err == nil {
+			defer l.Close()
+		}
+	case "bad-noport":
+		r.runAddr = "127.0.0.1"
+	case "bad-ipv4":
+		r.runAddr = fmt.Sprintf("127.0.0.1.9:%d", port)
+	case "bad-ipv6":
+		r.runAddr = fmt.Sprintf("[::zz]:%d", port)
+	case "bad-bracket":
+		r.runAddr = fmt.Sprintf("[::1:%d", port)
+	case "bad-emptyport":
+		r.runAddr = "127.0.0.1:"
+	case "bad-brackets-empty":
+		r.runAddr = fmt.Sprintf("[]:%d", port)
+	case "bad-brackets-host":
+		r.runAddr = fmt.Sprintf("[localhost]:%d", port)
+	}
 	cfgJSON, _ := json.Marshal(sc.Cfg)
 	gldap.SetVerifGate(func(point string, ids ...int) {
 		if point == "run.registered" || point == "run.accepted" {
@@ -702,6 +865,14 @@ func runScenario(sc *sScenario, out *hx.Out, seed int64, tlsSrv, tlsCli *tls.Con
 			r.gates[point]++
 			r.cond.Broadcast()
 			r.mu.Unlock()
+		}
+		if point == "run.pre_listen" && r.scen.Cfg["ready_dial"] == "1" {
+			// a poller racing Run: before the listening socket exists Ready must be false
+			v := "false"
+			if r.srv.Ready() {
+				v = "true"
+			}
+			r.emit(tEvent{Ev: "ready_sample", Val: v, K: "pre_listen"})
 		}
 		if g := r.gateHook; g != nil {
 			g(point, ids...)
@@ -738,7 +909,9 @@ func runScenario(sc *sScenario, out *hx.Out, seed int64, tlsSrv, tlsCli *tls.Con
 			cl := r.clients[e.C]
 			r.mu.Unlock()
 			if cl != nil {
-				_ = cl.conn.SendRaw(buf)
+				if cl.conn != nil {
+					_ = cl.conn.SendRaw(buf)
+				}
 			}
 		} else {
 			r.step(e)
@@ -758,6 +931,24 @@ func runScenario(sc *sScenario, out *hx.Out, seed int64, tlsSrv, tlsCli *tls.Con
 			}
 			exp = f
 		}
+		// the notice of disconnection only matters (as a synchronisation point) when something is sent to that
+		// connection later on; it is best effort otherwise
+		var f []sEvent
+		for _, x := range exp {
+			if x.A == "notice" {
+				later := false
+				for _, y := range b[k:] {
+					if y.A == "send" && y.C == x.C {
+						later = true
+					}
+				}
+				if !later {
+					continue
+				}
+			}
+			f = append(f, x)
+		}
+		exp = f
 		r.expect(exp)
 		r.waitFor(exp)
 	}
@@ -813,7 +1004,9 @@ func (r *runner) finish() {
 		if cl.isNoRead() {
 			close(cl.readGate)
 		}
-		cl.conn.Close()
+		if cl.conn != nil {
+			cl.conn.Close()
+		}
 	}
 	done := make(chan struct{})
 	go func() { _ = r.srv.Stop(); close(done) }()
@@ -1033,4 +1226,81 @@ func superviseChild(bin string, scens [][]byte, outPath string, w int) error {
 		pos += begun
 	}
 	return nil
+}
+
+// ---- TLS material and the wiretap used for StartTLS scenarios
+
+type tlsMaterial struct {
+	server, serverMTLS, client *tls.Config
+	clientCert, wrongCert      tls.Certificate
+}
+
+var (
+	tlsOnce sync.Once
+	tlsMat  *tlsMaterial
+)
+
+func getTLSMaterial() *tlsMaterial {
+	tlsOnce.Do(func() {
+		ca, err := hx.NewCA("verif-ca")
+		if err != nil {
+			panic(err)
+		}
+		other, err := hx.NewCA("some-other-ca")
+		if err != nil {
+			panic(err)
+		}
+		sc, _ := ca.Issue("server", false)
+		cc, _ := ca.Issue("client", true)
+		wc, _ := other.Issue("intruder", true)
+		tlsMat = &tlsMaterial{
+			server:     &tls.Config{Certificates: []tls.Certificate{sc}, MinVersion: tls.VersionTLS12},
+			serverMTLS: &tls.Config{Certificates: []tls.Certificate{sc}, MinVersion: tls.VersionTLS12, ClientAuth: tls.RequireAndVerifyClientCert, ClientCAs: ca.Pool()},
+			client:     &tls.Config{RootCAs: ca.Pool(), ServerName: "127.0.0.1"},
+			clientCert: cc, wrongCert: wc,
+		}
+	})
+	return tlsMat
+}
+
+// tapConn sits under the client's connection: once marked (the StartTLS response has been read) every byte
+// received from the server must be part of a TLS record
+type tapConn struct {
+	net.Conn
+	mu      sync.Mutex
+	marked  bool
+	need    int // bytes of the current record still to come
+	hdr     []byte
+	onPlain func(n int)
+	bad     bool
+}
+
+func (t *tapConn) mark() { t.mu.Lock(); t.marked = true; t.mu.Unlock() }
+
+func (t *tapConn) Read(p []byte) (int, error) {
+	n, err := t.Conn.Read(p)
+	t.mu.Lock()
+	if t.marked && !t.bad {
+		for _, b := range p[:n] {
+			if t.need > 0 {
+				t.need--
+				continue
+			}
+			t.hdr = append(t.hdr, b)
+			if len(t.hdr) == 5 {
+				ok := t.hdr[0] >= 20 && t.hdr[0] <= 23 && t.hdr[1] == 3 && t.hdr[2] <= 4
+				if !ok {
+					t.bad = true
+					if t.onPlain != nil {
+						go t.onPlain(int(t.hdr[0]))
+					}
+					break
+				}
+				t.need = int(t.hdr[3])<<8 | int(t.hdr[4])
+				t.hdr = t.hdr[:0]
+			}
+		}
+	}
+	t.mu.Unlock()
+	return n, err
 }
